@@ -17,7 +17,9 @@ import (
 // parseLessChain, which c11.go also calls), c12_sorted.go ("sorted before it escapes" on the CFG and through
 // helpers), c12_key.go (derivation of the (Index, Version) key), c12_funcval.go (function, struct and table values
 // in the comparator interpreter), c12_adapter.go (sort operands built at the call: struct adapters, function values),
-// c12_storage.go (N4 storage ownership), c12_variants.go / c12_variants5.go (sensitivity and robustness suites).
+// c12_storage.go (N4 storage ownership), c12_place.go (lists that are fields: places), c12_escape.go (lists that leave
+// through a pointer parameter, accessors), c12_identity.go (the sorted list is the stored list), c12_closure.go
+// (function literals in the key derivation), c12_variants*.go (sensitivity and robustness suites).
 //
 // Anchors (exported API or interface methods only): osm.Updates.SortByIndex, osm.Updates.SortByTimestamp,
 // osm.Update{Index,Timestamp,Version}, core.Compute, core.Parent.SetChild, shared.(*Child).Update,
@@ -32,8 +34,9 @@ func init() {
 			"(N2) The comparator that SortByIndex hands to sort.Sort/Stable/Slice/SliceStable is interpreted on every combination of relations (<, equal, >; for times also 'same instant, different representation', where == and Equal disagree) between the Index, Timestamp, Version (and any other field it reads) of two elements; the resulting truth table must be the strict lexicographic order Index, Timestamp (as an instant), Version and must never be true in both directions; SortByTimestamp's table must be the strict order on the instant; Len/Swap of an adapter are executed symbolically; the sort is applied to the method's receiver. The key (Index, Version) is shown to occur once per parent: every osm.Update put into a list comes from Child.Update() (which copies the Version of the child it is called on), its Index is set from the location's position field (the field also handed to Parent.SetChild) before any use, and the two innermost loops around each use are one that varies the child version and one that varies the location. " +
 			"The comparator is the one that runs: when the adapter is a struct that holds the slice and the comparator in fields, when sort.Slice receives a closure variable, a declared function or a method value, or when the comparator is picked from a lookup table by a constant, the operand is evaluated where the sort is called and the function value bound there is the one interpreted. " +
 			"(N4) Every list grown by append under a map range owns its storage: whatever is stored into it other than by l = append(l, ...) is nil, a fresh allocation, a re-slice of the list itself, or a three-index slice; a two-index slice of a shared block is reported, because its capacity reaches into the storage of the lists carved after it and append then overwrites them in map-iteration order (the bounds of a three-index slice are not checked). " +
+			"A list may be a local or a field reached from one (a.updates, through pointers): a field path is a place of its own, translated through receivers and arguments, so the map range, the growth, the sort and the return may sit in different methods of a state struct; a list that leaves a function through a pointer parameter instead of a return moves the obligation to the callers. The sort must be a sort of the list that is stored: sorting a copy of the slice header (range value, local) counts only if the element is not given another array between the copy and the sort, and a store after the sort must store the sorted list itself (re-slice, or append onto fresh storage). " +
 			"(N3) Every return of Compute that returns lists returns them after a complete sort into the index order (in Compute, or in the function whose result it returns). " +
-			"NOT decided: byte identity of whole results, determinism of user datasources, order effects through Parent.SetChild (each location is written once per child id), NaN in float fields (no comparator reads one), stores into outer slices that are not appends, one update variable appended twice in one statement, function literals (reported as undecided).",
+			"NOT decided: byte identity of whole results, determinism of user datasources, order effects through Parent.SetChild (each location is written once per child id), NaN in float fields (no comparator reads one), stores into outer slices that are not appends, one update variable appended twice in one statement, a map range written inside a function literal (reported as undecided; the key derivation does follow literals: callbacks handed to iteration helpers and local closures), lists kept as a field of the ELEMENTS of a slice (results[p].list).",
 		Assumptions: []string{"go/types, go/cfg (x/tools v0.29.0)", "sort.Sort is not stable, hence ties must be impossible on the emitted key", "time.Time: Before/After/Equal/Compare/Sub compare instants, == and != compare the representation", "the histories handed to Compute hold each child version once"},
 		LevelText:   "Structural necessary conditions for determinism and for the (index, time, version) order: map-iteration results are sorted before they escape, and the sort comparator is, by exhaustive evaluation over the relations between the compared fields, the required total order on the key the computation emits. Decided for every map range in annotate/… and for the comparator actually passed to the sort.",
 		LevelNote:   "Trusts the type checker, go/cfg dominance, and the documented behaviour of package sort and of time.Time comparisons. Does not decide byte-identity of results.",
@@ -49,8 +52,8 @@ func init() {
 			{ID: "N3", Floor: 1, Doc: "every value return of Compute is dominated by a complete sort of every per-parent update list into the index order", Run: c12N3},
 			{ID: "N4", Floor: 1, Doc: "storage ownership: a list grown by append under a map range never starts as a two-index slice of shared storage (nil, fresh allocation, re-slice of itself or three-index slice only)", Run: c12N4},
 		},
-		Mutants: append(append([]core.Mutant{}, c12Mutants...), c12Mutants5...),
-		Benign:  append(append([]core.Mutant{}, c12Benign...), c12Benign5...),
+		Mutants: append(append(append([]core.Mutant{}, c12Mutants...), c12Mutants5...), c12Mutants6...),
+		Benign:  append(append(append([]core.Mutant{}, c12Benign...), c12Benign5...), c12Benign6...),
 	})
 }
 
